@@ -23,6 +23,15 @@ CHECKS = {
  "C18": (MC, GXT,
          "Producer scenarios with a chain of counting + header-appending (+ panicking) interceptors, all executions with <= B deviations; oracle: exactly one invocation per submitted message per interceptor in configuration order, none for internal markers, one application visible in the log.",
          PNOTE + " Consumer half (slow-reader path) is added with the consumer rig.", "§6 C18"),
+ "C17": (EX, "bounded-exhaustive enumeration of (constructor/options, injected hash value, partition count, key kind) through the real partitioners in attributed child processes, against an independent reference",
+         "All listed hash boundary values plus 2^16 (quick) / ~10^6 (thorough) structured hash values x partition counts 1..17 and 2^31-1 x every constructor/option subset x key kinds, plus all round-robin count sequences up to length 6/8; range, Java-reference equality, consistency, fallback routing, manual, cycle oracles. The producer-routing half (leaderless subsets) is explored on the producer rig.",
+         "'all keys' is reduced to hash values through WithCustomHashFunction and short real keys; math/rand trusted; white-box bridge setters for cursors/fallbacks.", "§6 C17"),
+ "C19": (FE, "exhaustive enumeration of controller-answer scripts and leader/coordinator spreads, each executed through the real ClusterAdmin inside a synctest bubble against a scripted cluster, judged by a reference model",
+         "Every answer script of length <= Retry.Max+2 over {ok, NOT_CONTROLLER with/without move, other error, incomplete response, connection drop} for Retry.Max in {0,1,2} (5: restricted quick, full thorough) x 4 controller-bound ops x 5 Kafka versions; every spread of 1-3 items over 1-3 brokers with single faults for the leader/coordinator-bound ops; every KError in place of success.",
+         "default goroutine schedule (the quantifier is over fault sequences); 2-3 brokers; 'within Retry.Max' accepted as Max or Max+1 tries but at least one.", "§6 C19"),
+ "C20": (EX, "bounded-exhaustive enumeration of expectation scripts x message counts x partitioners x configs through the real mocks (async/concurrent cases in synctest bubbles with every sender interleaving), against an independent reference mock",
+         "Every expectation script of length <=3 (quick) / <=4 (thorough) x 0..len+1 messages x partitioners x topic configs x Return flags for async, sync (every SendMessage/SendMessages split) and two concurrent senders (all interleavings); consumer yield scripts over <=2 partitions with every close order; exact ErrorReporter call multiset.",
+         "behaviour the mocks' documentation leaves open (first offset value, offsets after an error expectation, ...) is not judged; listed in the evidence assumptions.", "§6 C20"),
 }
 NOT_YET = {}
 props = [json.loads(l) for l in open(os.path.join(ROOT, "properties.jsonl"))]
@@ -45,7 +54,7 @@ for p in props:
     if i in CHECKS:
         lvl, tech, text, note, ref = CHECKS[i]
         m["checks"].append({"property_id": i, "quick_cmd": f"./check {i} quick", "thorough_cmd": f"./check {i} thorough",
-            "evidence_file": f"evidence/{i}.json", "replay_cmd_template": "./check --replay {path}", "engine": "gx" if "explor" in tech and "controlled" in tech else "bx",
+            "evidence_file": f"evidence/{i}.json", "replay_cmd_template": "./check --replay {path}", "engine": "gx" if "controlled scheduler" in tech else "bx",
             "level_claimed": {"category": lvl, "text": text, "design_ref": ref}, "level_note": note, "technique": tech})
         for e in m["engines"]:
             if e["name"] == m["checks"][-1]["engine"]:
